@@ -513,11 +513,17 @@ struct Case
 	text: String,
 	expect: Option<Instruction>,
 	hist: Vec<&'static str>,
+	/// the program up to and including the statement / the definitions that follow it (text = head + " " + tail)
+	head: String,
+	tail: String,
+	addr: u32,
 }
 
-fn gen_case(rng: &mut Rng) -> Case
+fn gen_case(rng: &mut Rng) -> Case {gen_case_of(rng, None)}
+
+fn gen_case_of(rng: &mut Rng, which: Option<usize>) -> Case
 {
-	let (mn, kinds) = *rng.pick(MNEMONICS);
+	let (mn, kinds) = match which {Some(i) => MNEMONICS[i], None => *rng.pick(MNEMONICS)};
 	let addr = pick_addr(rng);
 	let mut hist: Vec<&'static str> = Vec::new();
 	let mut vals: Vec<V> = kinds.iter().map(|k| pick_value(*k, mn, addr, rng, &mut hist)).collect();
@@ -572,9 +578,11 @@ fn gen_case(rng: &mut Rng) -> Case
 	let expect = if valid && !hist.iter().any(|h| *h == "global-undefined") {meaning(mn, &vals, addr)} else {None};
 	let stmt = if texts.is_empty() {format!("{name};")} else {format!("{name} {};", texts.join(if rng.chance(1, 8) {","} else {", "}))};
 	let addr_text = if rng.chance(1, 2) {format!("0x{addr:X}")} else {format!("{addr}")};
-	let text = format!(".addr {addr_text}; {}{stmt} {}", d.before, d.after).trim_end().to_owned();
+	let head = format!(".addr {addr_text}; {}{stmt}", d.before);
+	let tail = d.after.trim_end().to_owned();
+	let text = format!("{head} {tail}").trim_end().to_owned();
 	hist.push(match addr {a if a >= 0xFFFF_FFFC => "addr: 0xFFFFFFFC..F (addr + 4 >= 2^32)", a if a >= 0xFFFF_FFF0 => "addr: near wrap", a if a & 3 == 0 => "addr: 0 mod 4", a if a & 3 == 2 => "addr: 2 mod 4", _ => "addr: odd"});
-	Case{text, expect, hist}
+	Case{text, expect, hist, head, tail, addr}
 }
 
 fn case_input(c: &Case) -> String
@@ -635,6 +643,68 @@ fn judge(cx: &mut Cx, input: &str, expect: &Option<Instruction>, prog: &Program,
 	}
 }
 
+/// Deferred statements with a WITNESS behind them: `<statement with an operand that is not known yet>; .du16 0xA55A; <definitions>`.
+/// The bytes at the statement's address must be the encoding and the two witness bytes must stand directly behind it, intact
+/// (a placeholder of another size than the final encoding shifts or overwrites what follows). One-statement programs cannot see
+/// that; every mnemonic that takes a value is run with forward constants and declared globals. Input: `W<expected>#<text>`.
+const WITNESS: [u8; 2] = [0x5A, 0xA5];
+
+fn check_witness(cx: &mut Cx, input: &str, expect: &Instruction, addr: u32, text: &str, dirs: &DirectiveList)
+{
+	let Ok(enc) = encode(expect) else {return};
+	let real = real_run(text, 0, 0, dirs);
+	let canon = real.canon();
+	cx.report.case(Some(&canon));
+	if let Some(p) = &real.panic {cx.report.oracle_fail(input, format!("the assembler panicked: {p}")); return;}
+	let mut want = enc.clone();
+	want.extend_from_slice(&WITNESS);
+	if !real.errs.is_empty() || !real.other.is_empty()
+	{
+		cx.report.oracle_fail(input, format!("valid deferred statement meaning {} followed by `.du16 0xA55A` was refused: {:?} {:?}", ser_instr(expect), real.errs, real.other));
+	}
+	else if real.out != vec![(addr, want.clone())]
+	{
+		cx.report.oracle_fail(input, format!("output {:?}; the encoding of {} followed by the witness is {addr:08x}:{}", real.out, ser_instr(expect), hex(&want)));
+	}
+}
+
+fn witness_stream(cx: &mut Cx, dirs: &DirectiveList)
+{
+	let per = if cx.thorough() {400} else {40};
+	let mut made = 0u64;
+	for which in 0..MNEMONICS.len()
+	{
+		let (mut got, mut tries) = (0, 0);
+		while got < per && tries < per * 60
+		{
+			tries += 1;
+			let mut rng = cx.rng.fork();
+			let c = gen_case_of(&mut rng, Some(which));
+			let Some(expect) = c.expect else {continue};
+			if c.tail.is_empty() {continue;}                     // nothing is defined after the statement: not deferred
+			let Ok(enc) = encode(&expect) else {continue};
+			if c.addr as u64 + enc.len() as u64 + 2 > 1 << 32 {continue;}
+			got += 1;
+			// the witness directly behind the statement; sometimes a label and a second instruction as well
+			let text = format!("{} .du16 0xA55A; {}", c.head, c.tail);
+			let input = format!("W{}#{text}", ser_instr(&expect));
+			cx.report.hit(&format!("witness: {}-byte encoding", enc.len()));
+			check_witness(cx, &input, &expect, c.addr, &text, dirs);
+			made += 1;
+		}
+		if got > 0 {cx.report.hit("witness: mnemonics with a deferred form");}
+	}
+	cx.report.hit_n("deferred statements with a trailing witness", made);
+}
+
+/// the operand of the leading `.addr <number>;`
+fn analyse_addr(text: &str) -> Option<u32>
+{
+	let t = text.strip_prefix(".addr ")?;
+	let n = &t[..t.find(';')?];
+	if let Some(h) = n.strip_prefix("0x") {u32::from_str_radix(h, 16).ok()} else {n.parse().ok()}
+}
+
 fn parse_input(input: &str) -> Option<(Option<Instruction>, String)>
 {
 	let (e, text) = input.split_once('#')?;
@@ -676,6 +746,18 @@ plus real encode, compared on diagnostics (full text) and output bytes. non-triv
 
 	if let Some(input) = cx.replay.clone()
 	{
+		if let Some(rest) = input.strip_prefix('W')
+		{
+			// `W<expected>#<text>`: the address is the operand of the leading `.addr`
+			let parsed = rest.split_once('#').and_then(|(e, t)| Some((de_instr(e)?, t.to_owned())));
+			let addr = parsed.as_ref().and_then(|(_, t)| analyse_addr(t));
+			match (parsed, addr)
+			{
+				(Some((expect, text)), Some(addr)) => check_witness(cx, &input, &expect, addr, &text, dirs),
+				_ => cx.report.oracle_fail(input, "unrecognised replay input"),
+			}
+			return;
+		}
 		match parse_input(&input)
 		{
 			Some((expect, text)) => run_batch(cx, &[(input, expect, text)], dirs),
@@ -730,6 +812,8 @@ plus real encode, compared on diagnostics (full text) and output bytes. non-triv
 		}
 		cx.report.hit_n("operands with literals beyond 2^63 (must be diagnosed)", n);
 	}
+
+	witness_stream(cx, dirs);
 
 	let total = if cx.thorough() {5_000_000} else {200_000};
 	let mut done = 0;
